@@ -230,7 +230,7 @@ def app_traj_scenario(ctx):
     U = e['util']
     N = t.irange(1, 4)
     two = t.flag(1, 4)
-    n_res = t.irange(2, 3)
+    n_res = t.irange(3, 4)        # at least 6 selected atoms (see clcommon: 4-atom frames are degenerate)
     tops = [make_top(n_res, False)] + ([make_top(n_res, True)] if two else [])
     selection = t.choice(('name CA or name C', 'name N or name CA or name C'))
     sub = 1 if t.flag(2, 3) else t.irange(2, 3)
